@@ -89,6 +89,7 @@ class Sched:
         self.vcap = vcap
         self.last = None
         self.nspawn = 0
+        self.pool_delay = 0.0
 
     # -- thread management -----------------------------------------------------------------
     def spawn(self, fn, name=None):
@@ -323,8 +324,15 @@ def _ex_submit(self, fn, /, *args, **kwargs):
     f = cf.Future()
     s.ctx.notes["submits"] = s.ctx.notes.get("submits", 0) + 1
 
+    delay = s.pool_delay
+
     def work():
+        # a saturated pool: the work item waits in the pool's queue before a worker picks it up
+        if delay:
+            s.ctx.fault("pool_saturated")
+            s.sleep(delay)
         if not f.set_running_or_notify_cancel():
+            s.ctx.probe("pool_item_cancelled_before_start")
             return
         try:
             r = fn(*args, **kwargs)
